@@ -19,8 +19,10 @@ Grammar (everything else is refused):
                `if / elif / else`, `raise X(...)` / `raise X` (message ignored),
                `return e`, `return a, b, ...`, `return`
   expressions  int / bool / None constants, names, `self.attr` and `param.attr`
-               (-> extra parameter), `self.attr[param]` (-> extra parameter),
+               (-> extra int parameter, `option Z` / bool if declared in FUNCTIONS[...]['attr_types'];
+               the read itself is assumed to succeed), `self.attr[param]` (-> extra parameter),
                `attr == 'literal'` (-> extra boolean parameter),
+               `self.a.b` (-> extra parameter), bools used as ints (Z.b2z),
                `+ - *`, unary `-`/`+`, `//` and `%` (ZeroDivisionError unless the divisor is a
                non-zero literal), `not`, `and` / `or` (short-circuit), comparisons
                `< <= > >= == !=` (chained ones only over pure int operands),
@@ -159,7 +161,7 @@ class Translator:
             if a.vararg or a.kwarg or a.posonlyargs:
                 raise Refuse('*args / **kwargs / positional-only parameters')
             for d in fn.decorator_list:
-                if src(d) != 'staticmethod':
+                if src(d) not in ('staticmethod', 'property'):
                     raise Refuse(f'decorator @{src(d)}')
             params = []
             for i, p in enumerate(a.args + a.kwonlyargs):
@@ -167,6 +169,7 @@ class Translator:
                     continue
                 params.append((p.arg, annotation_type(p.annotation)))
         self.params = params
+        self.fn_params = {p.arg for p in fn.args.args + fn.args.kwonlyargs}
         self.assigned = set(assigned_names(self.body))
         # single-use check for iterators
         self.iter_vars = set()
@@ -187,6 +190,8 @@ class Translator:
         if ty in (OZ, NONE):
             t = self.fresh()
             return f'bind (as_int {term}) (fun {t} =>\n{k(t)})'
+        if ty == B:
+            return k(f'(Z.b2z {term})')      # bool is a subclass of int: True = 1, False = 0
         refuse(node, f'value of type {ty} used as an int')
 
     def pure(self, node, env):
@@ -225,8 +230,11 @@ class Translator:
         """`self.x`, `p.x` (p a parameter never assigned), `self.x[p]` -> key, else None"""
         if isinstance(node, ast.Attribute) and isinstance(node.value, ast.Name):
             b = node.value.id
-            if b == 'self' or (b not in self.assigned):
+            if b == 'self' or (b in self.fn_params and b not in self.assigned):
                 return src(node), (node.attr if b == 'self' else f'{b}_{node.attr}')
+        if (isinstance(node, ast.Attribute) and isinstance(node.value, ast.Attribute)
+                and isinstance(node.value.value, ast.Name) and node.value.value.id == 'self'):
+            return src(node), f'{node.value.attr}_{node.attr}'       # self.x.y
         if (isinstance(node, ast.Subscript) and isinstance(node.value, ast.Attribute)
                 and isinstance(node.value.value, ast.Name) and node.value.value.id == 'self'
                 and isinstance(node.slice, ast.Name) and node.slice.id not in self.assigned):
@@ -527,8 +535,6 @@ class Translator:
                 ast.fix_missing_locations(val)
             if not isinstance(tg, ast.Name):
                 refuse(s, 'assignment to something other than a simple name')
-            if tg.id in dict(self.params) and False:
-                pass
             v = f'v_{tg.id}'
 
             def kk(t, ty):
@@ -702,6 +708,7 @@ FUNCTIONS = {
     'standardize_row_column_indices': dict(file=IMG, path=['_Image', '_standardize_row_column_indices']),
     'raw_frame_native_range': dict(file=IMG, path=['_Image', 'get_raw_frame'], fragment=frag_raw_frame,
                                    params=[('frame_index', Z)], outputs=['start', 'end']),
+    'bytes_per_frame_uncompressed': dict(file='io.py', path=['ImageFileReader', '_bytes_per_frame_uncompressed']),
     'tile_pixel_matrix': dict(file=SPATIAL, path=['tile_pixel_matrix']),
     'get_unsigned_dtype': dict(file=SEGSOP, path=['_get_unsigned_dtype']),
     'getitem_check_int': dict(file=VOLUME, path=['_VolumeBase', '_prepare_getitem_index', '_check_int'],
@@ -719,6 +726,9 @@ TARGETS = {
     'raw_frame_range/C05': dict(fn='raw_frame_native_range', statement=
                                 'forall i ybr R C spp bits, t_raw_frame_native_range i ybr R C spp bits = '
                                 'Ok (C05_Model.eager_range bits (if ybr then R*C*2 else R*C*spp) i)'),
+    'bytes_per_frame/C05': dict(fn='bytes_per_frame_uncompressed', statement=
+                                'forall ppf bits ybr R C, t_bytes_per_frame_uncompressed ppf bits ybr R C = '
+                                'Ok (C05_Model.lazy_bpf bits (if negb (bits =? 1) && ybr then R*C*2 else ppf))'),
     'slice_indices/C03': dict(fn='standardize_slice_indices', statement=
                               'forall s e n ai, t_standardize_slice_indices s e n ai = C03_Model.std_slice s e n ai'),
     'row_column_indices/C03': dict(fn='standardize_row_column_indices', pre=['TInt_Spec_rc'], statement=
@@ -817,8 +827,7 @@ def obligations(work, keys):
                 raise Refuse('forbidden vernacular in generated text')
             open(os.path.join(work, f'TInt_Gen_{f}.v'), 'w').write(text)
             gen_status[f] = None
-        except (Refuse, SyntaxError, OSError, ValueError, KeyError, AttributeError, IndexError, TypeError,
-                RecursionError) as e:
+        except Exception as e:  # noqa  fail closed on anything, including bugs of the translator itself
             gen_status[f] = f'translator-refused: {type(e).__name__}: {e}'[:400]
 
     def build_gen(f):
